@@ -1,7 +1,7 @@
 SPECIFICATION Spec
 CONSTANTS
   Alphabet <- Alpha5
-  Ranges <- Rng3
+  Ranges <- Rng1
   MaxLen = 6
   Limit = 4
   Chunked = TRUE
